@@ -138,8 +138,8 @@ inline Dense dense(const Cur::Mat &A) {
     for (long i = 0; i < A.n; ++i) for (auto j = A.ptr[i]; j < A.ptr[i+1]; ++j) D[i][A.col[j]] += A.val[j];
     return D;
 }
-inline Dense dmul(const Dense &A, const Dense &B) {
-    size_t n = A.size(), k = B.size(), m = k ? B[0].size() : 0; Dense C(n, std::vector<Q>(m));
+inline Dense dmul(const Dense &A, const Dense &B, long mcols = -1) {
+    size_t n = A.size(), k = B.size(), m = mcols >= 0 ? (size_t)mcols : (k ? B[0].size() : 0); Dense C(n, std::vector<Q>(m));
     for (size_t i = 0; i < n; ++i) for (size_t l = 0; l < k; ++l) if (A[i][l] != 0) for (size_t j = 0; j < m; ++j) C[i][j] += A[i][l] * B[l][j];
     return C;
 }
